@@ -290,7 +290,16 @@ def r6(ctx):
     rd = [norm(n.value) for n in walk_own(d.node) if isinstance(n, ast.Return)]
     rl = [norm(n.value) for n in walk_own(l.node) if isinstance(n, ast.Return)]
     ctx.check(len(rd) == 1 and rd[0].startswith("json.dumps(self.toJson()"), "C15.R6", d, "dumps = json.dumps(self.toJson(), ...)", witness=rd)
-    ctx.check(len(rl) == 1 and rl[0].startswith("cls.fromJson(json.loads(%s" % l.params[1]), "C15.R6", l, "loads = cls.fromJson(json.loads(string, ...))", witness=rl)
+    # (the document goes to the parser as it is: the first argument of json.loads is the parameter itself - a filter in front of the parser,
+    # comment stripping or the like, has its own idea of where strings begin and end)
+    rets_l = [n.value for n in walk_own(l.node) if isinstance(n, ast.Return)]
+    ok_l = len(rets_l) == 1 and isinstance(rets_l[0], ast.Call) and norm(rets_l[0].func) == "cls.fromJson" and len(rets_l[0].args) == 1 and isinstance(rets_l[0].args[0], ast.Call) \
+        and norm(rets_l[0].args[0].func) == "json.loads" and rets_l[0].args[0].args and isinstance(rets_l[0].args[0].args[0], ast.Name) and rets_l[0].args[0].args[0].id == l.params[1] \
+        and not any(isinstance(x, ast.Name) and x.id == l.params[1] and isinstance(x.ctx, ast.Store) for x in walk_own(l.node))
+    ctx.check(ok_l, "C15.R6", l, "loads = cls.fromJson(json.loads(string, ...))", witness=rl)
+    rets_d = [n.value for n in walk_own(d.node) if isinstance(n, ast.Return)]
+    ok_d = len(rets_d) == 1 and isinstance(rets_d[0], ast.Call) and norm(rets_d[0].func) == "json.dumps" and rets_d[0].args and norm(rets_d[0].args[0]) == "self.toJson()"
+    ctx.check(ok_d, "C15.R6", d, "the text dumps returns is the output of json.dumps on toJson(), unchanged", witness=rd)
     ctx.check("classmethod" in l.decorators and "classmethod" in ctx.fn("%s:Serializable.fromJson" % M).decorators, "C15.R6", l, "loads/fromJson are classmethods (build the class they are called on)")
     fj = ctx.fn("%s:Serializable.fromJson" % M)
     inst = [n for n in walk_own(fj.node) if isinstance(n, ast.Assign) and norm(n.targets[0]) == "inst"]
